@@ -31,16 +31,21 @@ func vxH11Ufs() {
 	if !good {
 		return
 	}
+	// the directory is listed twice from the start (each rewind reopens it)
+	nrd := vxChoose("directory-listed-from-offset-0", 3)
+	for i := 0; i < nrd; i++ {
+		send(refEncode(Tread, 3, []refItem{refU32(3), refU64(0), refU32(500)}, true))
+	}
 	// hard link to fid 2's file under a name that exists (link(2) fails) or is free (succeeds), or to an unknown fid
 	name := []string{"f", "g"}[vxChoose("link-name", 2)]
 	target := []string{"2", "9"}[vxChoose("link-target-fid", 2)]
 	send(refEncode(Tcreate, 2, []refItem{refU32(1), refS(name), refU32(DMLINK | 0644), refU8(OREAD), refS(target)}, true))
 	fr, ok = vxFrames(nc.wire)
-	vxAssert(ok && len(fr) == 8, "create-answered")
-	if ok && len(fr) == 8 {
-		vxObserve("create-reply", int(fr[7].typ))
+	vxAssert(ok && len(fr) == 8+nrd, "create-answered")
+	if ok && len(fr) == 8+nrd {
+		vxObserve("create-reply", int(fr[7+nrd].typ))
 		if name == "f" || target == "9" {
-			vxAssert(fr[7].typ == Rerror, "link-onto-an-existing-name-or-to-an-unknown-fid-refused")
+			vxAssert(fr[7+nrd].typ == Rerror, "link-onto-an-existing-name-or-to-an-unknown-fid-refused")
 		}
 	}
 	opened := 0
